@@ -27,6 +27,7 @@ RULE = (
     '(filter/slice/split/extend) executed while the source was in displacement representation; distinct = the '
     'operation sequence (names + arguments).'
 )
+RULE += ' Added in rounds 8-10: filter arguments with repeated names; restart chunks repeating the last frame; derived quantities re-queried after extend(); shape analysis (with supercell) and the pair RDF among the read-only queries.'
 ASSUMPTIONS = [
     'constant-cell trajectories only',
     'split without equal_parts is taken to tile the source without gaps; at most one trailing frame may stay unused (the implementation drops the last frame)',
